@@ -184,6 +184,7 @@ def genScriptOfJson (j : Json) : R GenScript := do
   let ret ← match ← fStr j "ret" with
     | "data" => pure Ret.data
     | "number" => pure Ret.number
+    | "hostile" => pure Ret.number   -- a non-table result (a string with a scripted __tostring): the same error for the model
     | "empty" => pure Ret.empty
     | r => .error s!"bad ret {r}"
   return { stmts := stmts, ret := ret }
